@@ -136,8 +136,12 @@ func plan(c *Ctx, seeds []*Seed, pc planCfg) []Case {
 			}
 			tr = keep
 		}
-		for _, m := range tr {
-			emit(s, m, 2, nil)
+		for i, m := range tr {
+			if pc.thorough || i%2 == 0 || len(m.data) <= s.HdrLen+2 {
+				emit(s, m, 2, nil)
+			} else {
+				emit(s, m, 1, nil)
+			}
 			if pc.thorough {
 				emit(s, m, 0, nil)
 			}
@@ -188,7 +192,7 @@ func plan(c *Ctx, seeds []*Seed, pc planCfg) []Case {
 		}
 		for i, m := range fm {
 			emit(s, m, 1, nil)
-			if div == 1 || i%div == 0 {
+			if pc.thorough && (div == 1 || i%div == 0) || !pc.thorough && (i+si)%(3*div) == 0 {
 				emit(s, m, 0, nil)
 			}
 		}
@@ -428,7 +432,7 @@ func shuffle(cs []Case, rng *Rand) {
 
 // execute runs the cases in waves (so that classes that keep timing out are abandoned
 // after a few 10 s penalties) and feeds each result to `on`.
-func execute(c *Ctx, cases []Case, st *runState, on func(cs *Case, r *Res)) {
+func execute(c *Ctx, cases []Case, st *runState, confirmTimeouts bool, on func(cs *Case, r *Res)) {
 	cfg := runCfg{Workers: c.Work, Timeout: watchdog, ASLimit: asLimit}
 	if os.Getenv("PARSERS_VERBOSE") != "" {
 		cnt := map[string]int{}
@@ -437,6 +441,15 @@ func execute(c *Ctx, cases []Case, st *runState, on func(cs *Case, r *Res)) {
 			cnt["fam."+cases[i].Fam]++
 		}
 		fmt.Fprintf(os.Stderr, "[parsers] plan: %d cases %v\n", len(cases), cnt)
+	}
+	if v := os.Getenv("PARSERS_FAM"); v != "" { // development aid
+		var keep []Case
+		for i := range cases {
+			if cases[i].Fam == v {
+				keep = append(keep, cases[i])
+			}
+		}
+		cases = keep
 	}
 	if v := os.Getenv("PARSERS_MAXCASES"); v != "" { // development aid
 		var n int
@@ -466,7 +479,7 @@ func execute(c *Ctx, cases []Case, st *runState, on func(cs *Case, r *Res)) {
 				again = append(again, i)
 			}
 		}
-		if len(again) > 0 {
+		if len(again) > 0 && confirmTimeouts {
 			cs2 := make([]Case, len(again))
 			for k, i := range again {
 				cs2[k] = batch[i]
@@ -790,31 +803,22 @@ func runC08(c *Ctx) {
 		for _, n := range ns {
 			c.R.Note("%s", n)
 		}
-		MeasureSeeds(seeds, c.Work)
 		slow := 0
 		for _, s := range seeds {
 			if s.CostMs >= 40 {
 				slow++
 			}
 		}
-		if os.Getenv("PARSERS_VERBOSE") != "" {
-			fmt.Fprintf(os.Stderr, "[parsers] seeds measured, %.1fs\n", time.Since(t0).Seconds())
-			for _, s := range seeds {
-				if s.CostMs >= 40 {
-					fmt.Fprintf(os.Stderr, "[parsers]   slow seed %s: %d ms, %d bytes\n", s.Name, s.CostMs, len(s.Data))
-				}
-			}
-		}
-		c.R.Note("seed corpus: %d valid streams (%d with a valid-decode time >= 40 ms get thinned mutation sets)", len(seeds), slow)
-		pc := planCfg{thorough: c.Thor, byteValPer: 160, havocPer: 60, randomPerFam: 4000, splices: 3000, rleFI: 3000, denseTrunc: 1500}
+		c.R.Note("seed corpus: %d valid streams (%d with an estimated decode cost >= 40 ms get thinned mutation sets)", len(seeds), slow)
+		pc := planCfg{thorough: c.Thor, byteValPer: 90, havocPer: 40, randomPerFam: 4000, splices: 3000, rleFI: 3000, denseTrunc: 800}
 		if c.Thor {
 			pc.havocPer, pc.randomPerFam, pc.splices, pc.rleFI, pc.denseTrunc = 1500, 60000, 60000, 40000, 4000
 		}
 		cases = plan(c, seeds, pc)
 		shuffle(cases, c.Rng.Fork())
-		budget := int64(c.Work) * 35_000 // ms of estimated decode time: quick tier
+		budget := int64(16) * 25_000 // ms of estimated decode time: quick tier
 		if c.Thor {
-			budget = int64(c.Work) * 700_000
+			budget = int64(16) * 600_000
 		}
 		var dropped int
 		cases, dropped = thin(cases, budget, c.Rng.Fork())
@@ -824,7 +828,7 @@ func runC08(c *Ctx) {
 			c.R.Sample(map[string]interface{}{"suite": "c08", "seed": s.Name, "len": len(s.Data), "hdr_len": s.HdrLen, "hex_prefix": hexs(s.Data[:min(48, len(s.Data))])})
 		}
 	}
-	execute(c, cases, st, on)
+	execute(c, cases, st, false, on)
 	dumpCost()
 	if os.Getenv("PARSERS_VERBOSE") != "" {
 		fmt.Fprintf(os.Stderr, "[parsers] search done %.1fs\n", time.Since(t0).Seconds())
@@ -1003,7 +1007,6 @@ func runC09(c *Ctx) {
 		c.R.Note("replay of %d recorded inputs from %s", len(cases), c.Replay)
 	} else {
 		seeds, _ := BuildCorpus(c.Rng.Fork(), c.Thor)
-		MeasureSeeds(seeds, c.Work)
 		pc := planCfg{thorough: c.Thor, forC09: true, byteValPer: 40, havocPer: 20, randomPerFam: 1500, splices: 800, rleFI: 1500, denseTrunc: 400}
 		if c.Thor {
 			pc.byteValPer, pc.havocPer, pc.randomPerFam, pc.splices, pc.rleFI, pc.denseTrunc = 600, 400, 20000, 20000, 20000, 1500
@@ -1077,9 +1080,9 @@ func runC09(c *Ctx) {
 			cases = append(cases, all[i])
 		}
 		shuffle(cases, c.Rng.Fork())
-		budget := int64(c.Work) * 30_000
+		budget := int64(16) * 20_000
 		if c.Thor {
-			budget = int64(c.Work) * 600_000
+			budget = int64(16) * 500_000
 		}
 		var dropped int
 		cases, dropped = thin(cases, budget, c.Rng.Fork())
@@ -1091,7 +1094,7 @@ func runC09(c *Ctx) {
 			cases[i].Budget = budgetFor(s)
 		}
 	}
-	execute(c, cases, st, on)
+	execute(c, cases, st, true, on)
 	hs := sortedHits(st)
 	doneRoot := map[string]bool{}
 	for _, h := range hs {
